@@ -43,13 +43,24 @@ def min_atom_distance(atcoords):
     return float(d.min())
 
 
+def working_eps(points, atcoords):
+    """Machine epsilon of the arithmetic the arguments imply (integer arrays are exact -> float64)."""
+    eps = np.finfo(float).eps
+    for a in (points, atcoords):
+        dt = np.asarray(a).dtype
+        if dt.kind == "f":
+            eps = max(eps, float(np.finfo(dt).eps))
+    return eps
+
+
 def resolvable(points, atcoords):
     """True when the floating-point spacing of the coordinates is far below the smallest internuclear distance.
 
     Otherwise the computed distances |r-R_A|-|r-R_B| do not even obey the triangle inequality against
-    |R_A-R_B| and nothing about the weights is decided (recorded as observation by the workload).
+    |R_A-R_B| and nothing about the weights is decided (recorded as observation by the workload).  The spacing
+    is the one of the arguments' own floating-point type (float32 arrays resolve much less than float64).
     """
-    dmin = min_atom_distance(atcoords)
+    dmin = min_atom_distance(np.asarray(atcoords, dtype=float))
     if not np.isfinite(dmin):
         dmin = 1.0
     big = 0.0
@@ -58,7 +69,8 @@ def resolvable(points, atcoords):
     big = max(big, float(np.max(np.abs(atcoords))))
     if not np.isfinite(big):
         return False
-    return float(np.spacing(big)) * 64.0 <= dmin
+    spacing = float(np.spacing(big)) * working_eps(points, atcoords) / np.finfo(float).eps
+    return spacing * 64.0 <= dmin
 
 
 def owners_from_select(m, n, select, pt_ind):
@@ -99,7 +111,13 @@ def _becke_post(ctx, subject, res, points, atcoords, owner, extra=None):
     ctx.check("one-value-per-point", subject, ok_shape, sig="wrong-shape", detail={"shape": getattr(res, "shape", None), "npoints": n, **det})
     if not ok_shape or n == 0:
         return
-    dmin = min_atom_distance(atcoords)
+    dmin = min_atom_distance(np.asarray(atcoords, dtype=float))
+    weps = working_eps(points, atcoords)
+    tol_unit = TOL_UNIT if weps <= np.finfo(float).eps else 64.0 * weps
+    sfx = ""
+    if weps > np.finfo(float).eps:
+        sfx = "-single"  # single-precision arguments: same clauses, recorded separately with their own slack
+        ctx.count("hook:calls-with-single-precision-arguments")
     if dmin == 0.0:
         ctx.count("hook-undecided:coincident-atoms")
         return
@@ -115,7 +133,7 @@ def _becke_post(ctx, subject, res, points, atcoords, owner, extra=None):
     lo, hi = float(res.min()), float(res.max())
     viol = max(0.0, -lo, hi - 1.0)
     k = int(np.argmin(res)) if -lo >= hi - 1.0 else int(np.argmax(res))
-    ctx.check("in-unit-interval", subject, viol, TOL_UNIT, sig="w<0" if -lo >= hi - 1.0 else "w>1", detail={"point": points[k], "value": res[k], **det})
+    ctx.check("in-unit-interval" + sfx, subject, viol, tol_unit, sig="w<0" if -lo >= hi - 1.0 else "w>1", detail={"point": points[k], "value": res[k], **det})
     if owner is None:
         return
     # points that are exactly a nucleus
@@ -127,12 +145,12 @@ def _becke_post(ctx, subject, res, points, atcoords, owner, extra=None):
     if own_mask.any():
         dev = np.abs(res[pi[own_mask]] - 1.0)
         k = int(np.argmax(dev))
-        ctx.check("own-nucleus-one", subject, float(dev[k]), TOL_UNIT, sig="w!=1", detail={"atom": int(aj[own_mask][k]), "value": float(res[pi[own_mask]][k]), **det})
+        ctx.check("own-nucleus-one" + sfx, subject, float(dev[k]), tol_unit, sig="w!=1", detail={"atom": int(aj[own_mask][k]), "value": float(res[pi[own_mask]][k]), **det})
     oth = ~own_mask
     if oth.any():
         dev = np.abs(res[pi[oth]])
         k = int(np.argmax(dev))
-        ctx.check("other-nucleus-zero", subject, float(dev[k]), TOL_UNIT, sig="w!=0", detail={"at_nucleus": int(aj[oth][k]), "asked_atom": int(owner[pi[oth]][k]), "value": float(res[pi[oth]][k]), **det})
+        ctx.check("other-nucleus-zero" + sfx, subject, float(dev[k]), tol_unit, sig="w!=0", detail={"at_nucleus": int(aj[oth][k]), "asked_atom": int(owner[pi[oth]][k]), "value": float(res[pi[oth]][k]), **det})
 
 
 # ------------------------------------------------------------------ Hirshfeld reference
@@ -272,6 +290,7 @@ def spline_self_test():
 
 def _hirshfeld_post(ctx, res, points, atcoords, atnums, indices):
     subject = "HirshfeldWeights.__call__"
+    prec = working_eps(points, atcoords) / np.finfo(float).eps  # 1 unless the arguments are single precision
     points = np.asarray(points, dtype=float)
     atcoords = np.asarray(atcoords, dtype=float)
     n = len(points)
@@ -319,7 +338,7 @@ def _hirshfeld_post(ctx, res, points, atcoords, atnums, indices):
     # |w - w_ref| <= K eps (sum_B scale_B / |sum_B rho_B|) (1 + |w_ref|)   with scale_B from the cardinal splines
     with np.errstate(all="ignore"):
         share = np.asarray(rho[own[idx], idx] / tot[idx], float)
-        unit = np.finfo(float).eps * cond_scale[idx] / np.abs(np.asarray(tot[idx], float)) * (1.0 + np.abs(share))
+        unit = prec * np.finfo(float).eps * cond_scale[idx] / np.abs(np.asarray(tot[idx], float)) * (1.0 + np.abs(share))
     good = np.isfinite(share) & np.isfinite(unit) & (unit > 0) & fin
     if good.any():
         dev = np.abs(w[good] - share[good]) / unit[good]
@@ -334,7 +353,7 @@ def _hirshfeld_post(ctx, res, points, atcoords, atnums, indices):
         )
         # plain absolute comparison where every pro-atom value is well conditioned (all atoms closer than 8 bohr)
         close = dist.max(axis=0)[idx][good] < 8.0
-        if close.any():
+        if close.any() and prec == 1.0:
             ctx.check("hirshfeld-equals-proatom-share-abs", subject, float(np.max(np.abs(w[good][close] - share[good][close]))), TOL_SHARE_ABS, sig="differs:near")
 
 
